@@ -5,7 +5,7 @@ import random
 
 from harness import gen
 from harness import refcal as R
-from harness.common import DAY, MEANING, cur_mode, err_info, mk_dur, mk_tp, outcome, proj_dur, proj_tp, respellings, set_mode, tp_rec
+from harness.common import DAY, MEANING, cur_mode, err_info, mk_dur, mk_dur_via, mk_tp, outcome, proj_dur, proj_tp, respellings, set_mode, tp_rec
 
 PROP = "C01"
 
@@ -22,7 +22,7 @@ def run_case(case, rec, cid):
 
 
 def _one(case, rec, cid, p):
-    d = mk_dur(case["d"])
+    d = mk_dur_via(case["d"], case.get("dvia"))
     how = case["how"]
     if how == "add":
         st, q = outcome(lambda: p + d)
@@ -52,6 +52,8 @@ def expand(job):
                     "how": rnd.choice(["add", "add", "radd", "sub"])}
             if not frac and case["p"]["hh"] < 24 and abs(case["p"]["y"]) < 900000 and rnd.random() < 0.15:
                 case["also"] = rnd.randrange(10 ** 6)
+            if not frac and rnd.random() < 0.15:
+                case["dvia"] = "parse"
             yield case
     elif k == "sweep":      # every day of a year as a start, small steps in both directions
         sp, y = job["mode"], job["y"]
